@@ -5,6 +5,7 @@
   compared with it point by point on a grid of representative instants and positions.
 -/
 import MocVerif.Lemmas.ST
+import MocVerif.Lemmas.Consistent2D
 
 namespace Moc.C09
 
@@ -23,6 +24,36 @@ theorem obs_perm (a b : List (Rng × Rng)) (h : ∀ o, o ∈ a ↔ o ∈ b) (t s
 
 theorem obs_dup (a : List (Rng × Rng)) (t s : Nat) : obsB (a ++ a) t s = obsB a t s :=
   obs_perm (a ++ a) a (fun o => by simp) t s
+
+/-- **The range-2D construction path AS COMPUTED** (`Ranges2D::make_consistent`, behind
+    `create_from_time_ranges_spatial_coverage`, transliterated in `Model/Consistent2D.lean` and tied to the code by
+    exact agreement of the entries): for EVERY list of (time range, coverage) observations — any order,
+    overlapping, touching, nested or duplicated time ranges — with non-empty time ranges and non-empty canonical
+    coverages, the result covers exactly the union of the products: no pair is lost, none is invented … -/
+theorem range2d_path_sem (entries : FlatST) (he : ∀ e ∈ entries, e.1.1 < e.1.2 ∧ Canon e.2 ∧ e.2 ≠ []) (t s : Nat) :
+    memST t s (Merge2D.toST (Consistent2D.makeConsistent entries)) ↔
+      ∃ e ∈ entries, (e.1.1 ≤ t ∧ t < e.1.2) ∧ mem s e.2 := by
+  rw [Merge2D.memST_toST, (Consistent2D.makeConsistent_spec entries he).2 t s]
+  constructor
+  · rintro ⟨e, h, a, b, c⟩; exact ⟨e, h, ⟨a, b⟩, c⟩
+  · rintro ⟨e, h, ⟨a, b⟩, c⟩; exact ⟨e, h, a, b, c⟩
+
+/-- … it is a valid flat coverage (ordered disjoint non-empty time ranges, non-empty canonical coverages,
+    touching ranges of equal coverage fused) … -/
+theorem range2d_path_valid (entries : FlatST) (he : ∀ e ∈ entries, e.1.1 < e.1.2 ∧ Canon e.2 ∧ e.2 ≠ []) :
+    validFlatB (Merge2D.toST (Consistent2D.makeConsistent entries)) = true :=
+  Merge2D.validFlatB_of_VF _ 0 none (Consistent2D.makeConsistent_spec entries he).1
+
+/-- … and the set covered does not depend on the order of the observations nor on duplicates. -/
+theorem range2d_path_order_independent (a b : FlatST)
+    (ha : ∀ e ∈ a, e.1.1 < e.1.2 ∧ Canon e.2 ∧ e.2 ≠ []) (hb : ∀ e ∈ b, e.1.1 < e.1.2 ∧ Canon e.2 ∧ e.2 ≠ [])
+    (h : ∀ e, e ∈ a ↔ e ∈ b) (t s : Nat) :
+    memST t s (Merge2D.toST (Consistent2D.makeConsistent a)) ↔
+      memST t s (Merge2D.toST (Consistent2D.makeConsistent b)) := by
+  rw [range2d_path_sem a ha, range2d_path_sem b hb]
+  constructor
+  · rintro ⟨e, he, hp⟩; exact ⟨e, (h e).1 he, hp⟩
+  · rintro ⟨e, he, hp⟩; exact ⟨e, (h e).2 he, hp⟩
 
 /-- The defect found in `Ranges2D::make_consistent` (seeding the open set with entry 0), as a theorem
     about the specification: with `[(10..20, S0), (0..5, S1)]` the instant 7 is covered by nothing —
